@@ -436,6 +436,10 @@ carquet_status_t carquet_batch_reader_next(
             /* No nulls in REQUIRED columns */
             size_t bitmap_size = ((size_t)col_data->num_values + 7) / 8;
             col_data->null_bitmap = calloc(1, bitmap_size);  /* All zeros = no nulls */
+            if (!col_data->null_bitmap) {
+                BATCH_SET_READ_ERROR();
+                continue;
+            }
 
             /* Mark page as consumed */
             col_reader->page_values_read = col_reader->page_num_values;
@@ -470,11 +474,19 @@ carquet_status_t carquet_batch_reader_next(
             /* Allocate null bitmap */
             size_t bitmap_size = ((size_t)rows_to_read + 7) / 8;
             col_data->null_bitmap = calloc(1, bitmap_size);
+            if (!col_data->null_bitmap) {
+                BATCH_SET_READ_ERROR();
+                continue;
+            }
 
             /* Read values */
             int16_t* def_levels = NULL;
             if (max_def > 0) {
                 def_levels = malloc(sizeof(int16_t) * (size_t)rows_to_read);
+                if (!def_levels) {
+                    BATCH_SET_READ_ERROR();
+                    continue;
+                }
             }
 
             int64_t values_read = carquet_column_read_batch(
